@@ -481,4 +481,48 @@ def rule_read_accounting(ctx):
         ctx.ob(R, "consumed count = delivered count", okc, "payload.take(n) with the same n that bounds the delivered slice" if okc else "the number of bytes consumed from the payload buffer is not the number delivered", f.loc())
 
 
-RULES = [("C13.8", rule_read_accounting), ("C13.1", rule_constants), ("C13.2", rule_reader), ("C13.3", rule_flush_before_reuse), ("C13.4", rule_failures), ("C13.5", rule_buffer), ("C13.6", rule_write_accounting), ("C13.7", rule_flush_progress)]
+def rule_handshake_hand_over(ctx):
+    R = "C13.9"
+    ctx.rule(R, "nothing is lost between the handshake and the session: the noise handshake talks to the transport it was given directly, reads exactly its own messages (read_exact of the 2-byte length, then of that many bytes) and hands that very transport on as Stream.inner with empty read / write buffers - a buffering adapter created for the handshake (and unwrapped afterwards) or an open-ended read swallows ciphertext the peer sent right behind its handshake message")
+    top = ctx.fn(STREAM + "::handshake")
+    f = ctx.F.body_of(top)
+    T = ctx.T(f)
+    sp = set()
+    for i in range(1, top.argc + 1):
+        ty = top.locals[i].s
+        if not ("ctx::Ctx" in ty or "HandshakeState" in ty):
+            sp |= common.pnames(top, index=i)
+    ctx.ob(R, "transport parameter", bool(sp), "the transport is parameter %s of Stream::handshake" % sorted(sp) if sp else "transport parameter of Stream::handshake not identified", top.loc())
+    if not sp:
+        return
+
+    def is_transport(t):
+        while t[0] in ("ref", "deref") or (t[0] == "call" and t[1] in ("std::ops::DerefMut::deref_mut", "std::ops::Deref::deref", "std::pin::Pin::new", "std::borrow::BorrowMut::borrow_mut") and t[2]):
+            t = t[1] if t[0] in ("ref", "deref") else t[2][0]
+        return common.is_p(t, sp)
+    aggs = []
+    for bi, b in enumerate(f.blocks):
+        for st in b["s"]:
+            if st["k"] == "assign" and st["r"]["k"] == "agg":
+                t = T.rvalue(st["r"])
+                if t[0] == "agg" and t[1] == STREAM:
+                    aggs.append((bi, dict(t[3])))
+    ctx.floor(R, "Stream construction sites in handshake", len(aggs), 1)
+    for bi, flds in aggs:
+        inner = flds.get("inner")
+        ok = inner is not None and is_transport(inner)
+        ctx.ob(R, "Stream.inner is the given transport", ok, "inner: the stream parameter itself" if ok else
+               "Stream.inner is %s, not the transport the handshake was given: whatever an intermediate wrapper read ahead (or buffered for writing) is dropped with it - bytes the peer wrote and flushed never reach the reader" % (show(inner)[:80] if inner is not None else None), f.loc())
+        fresh = all(flds.get(k) is not None and flds[k][0] in ("call", "agg") and not any(x[0] in ("param", "upvar", "var") for x in subterms(flds[k])) for k in ("read_buf", "write_buf"))
+        ctx.ob(R, "session starts with empty buffers", fresh, "read_buf / write_buf: Default::default()" if fresh else "the session's buffers are not freshly created: %s" % {k: show(v)[:40] for k, v in flds.items() if k.endswith("_buf")}, f.loc())
+    ios = [c for c in T.calls() if c["q"].startswith("zksync_concurrency::io::") or c["q"].startswith("tokio::io::")]
+    reads = [c for c in ios if "read" in c["q"].rsplit("::", 1)[1]]
+    bad_target = [c for c in ios if c["q"].startswith("zksync_concurrency::io::") and len(T.args_of(c)) > 1 and not is_transport(T.args_of(c)[1])]
+    ctx.floor(R, "transport reads in handshake", len(reads), 2)
+    okr = bool(reads) and all(c["q"].endswith("io::read_exact") for c in reads)
+    ctx.ob(R, "handshake reads exact lengths", okr, "%d reads, all io::read_exact" % len(reads) if okr else "the handshake reads with %s: an open-ended read can take bytes that belong to the session" % sorted(set(c["q"].rsplit("::", 1)[1] for c in reads if not c["q"].endswith("io::read_exact"))), f.loc())
+    ctx.ob(R, "handshake i/o goes to the transport itself", not bad_target, "every io:: call of the handshake is made on the stream parameter" if not bad_target else
+           "handshake i/o is made on %s instead of the transport parameter (an adapter with its own buffer)" % show(T.args_of(bad_target[0])[1])[:60], f.loc(bad_target[0]["t"].get("ln")) if bad_target else f.loc())
+
+
+RULES = [("C13.9", rule_handshake_hand_over), ("C13.8", rule_read_accounting), ("C13.1", rule_constants), ("C13.2", rule_reader), ("C13.3", rule_flush_before_reuse), ("C13.4", rule_failures), ("C13.5", rule_buffer), ("C13.6", rule_write_accounting), ("C13.7", rule_flush_progress)]
